@@ -313,7 +313,7 @@ func main() {
 	if err != nil {
 		res.Extra["driver_error"] = err.Error()
 	}
-	var exLines []string
+	var exLines, wireLines []string
 	for i := range steps {
 		ob := obs[steps[i].ID]
 		mi, ex := stepInfo[i], exs[i]
@@ -343,6 +343,12 @@ func main() {
 		idx := len(exLines)
 		exLines = append(exLines, judge(res, idx, mi, ex, ob, declared))
 		res.Cases = append(res.Cases, ex)
+		// the request as built by the generated client, for the model's encode_wire: every exchange of the
+		// witness / edge streams, and the main exchanges in which no callback is scripted to reject
+		if len(effectiveReqs(mi.D, mi.S, mi.M)) > 0 && mi.M.Payload != nil && (ex.Stream != "main" || len(ex.Rejects) == 0) {
+			wireLines = append(wireLines, wireCase(len(wireLines), mi, ex, ob))
+			res.Count("wire_cases")
+		}
 		if strings.HasPrefix(ex.Stream, "witness:") {
 			want := strings.TrimPrefix(ex.Stream, "witness:")
 			got := false
@@ -366,6 +372,7 @@ func main() {
 		}
 	}
 	writeLines(filepath.Join(*out, "cases_exchange.txt"), exLines)
+	writeLines(filepath.Join(*out, "cases_wire.txt"), wireLines)
 	res.Extra["designs"] = designs
 	res.Distinct = len(distinct)
 	res.Rule = "tier A: 6 requirement-list variants at each of API / service / method x NoSecurity (every combination) evaluated through the real DSL; " +
